@@ -79,7 +79,97 @@ fn natural_len(oc: &OCal, y: i64, m: u32) -> i64 {
     oracle::month_len(oracle::leap(rule, y), m)
 }
 
+/// properties whose direct predicate needs no calendar
+fn one_case_global(prop: &str, g: &mut Gen, cx: &mut Ctx) -> bool {
+    match prop {
+        "C12" => {
+            // accepted exactly on 1830692..=2147439588; below: not skipping forward; above: overflow
+            let r = match g.rng.below(6) {
+                0 => *g.rng.pick(&[crate::gen::R_MIN, crate::gen::R_MAX, I32_MIN, I32_MAX, -2147439515, 0]) + g.rng.range(-3, 3),
+                1 => g.rng.range(I32_MIN, I32_MIN + 100_000),
+                2 => g.rng.range(crate::gen::R_MAX - 1000, I32_MAX),
+                3 => g.dict_near(),
+                _ => g.rng.range(I32_MIN, I32_MAX),
+            }
+            .clamp(I32_MIN, I32_MAX);
+            let res = Calendar::reforming(r as i32);
+            use julian::errors::ReformingError;
+            let expect_ok = (crate::gen::R_MIN..=crate::gen::R_MAX).contains(&r);
+            match res {
+                Ok(c) => {
+                    cx.check(expect_ok, || format!("reforming({r}) accepted"));
+                    cx.check(
+                        c.reformation() == Some(r as i32) && c.is_reforming() && !c.is_proleptic(),
+                        || format!("reforming({r}) accessors"),
+                    );
+                    let lj = c.last_julian_date().unwrap();
+                    let fg = c.first_gregorian_date().unwrap();
+                    cx.check(
+                        (lj.year(), lj.month(), lj.day()) < (fg.year(), fg.month(), fg.day())
+                            && i64::from(lj.julian_day_number()) == r - 1
+                            && i64::from(fg.julian_day_number()) == r,
+                        || format!("reforming({r}) boundary dates {lj:?} {fg:?}"),
+                    );
+                    // whole months are skipped only from 3145930 on, whole years only from 19582149 on
+                    let months_skipped = (lj.year()..=fg.year().min(lj.year().saturating_add(1)))
+                        .any(|y| (1..=12u32).any(|m| c.month_shape(y, month(m)).is_none()));
+                    cx.check(!months_skipped || r >= 3145930, || format!("reforming({r}) skips a whole month"));
+                    let years_skipped = fg.year() > lj.year() && c.year_kind(lj.year() + 1) == YearKind::Skipped;
+                    cx.check(!years_skipped || r >= 19582149, || format!("reforming({r}) skips a whole year"));
+                }
+                Err(ReformingError::InvalidReformation) => cx.check(r < crate::gen::R_MIN, || format!("reforming({r}) = InvalidReformation")),
+                Err(ReformingError::Arithmetic) => cx.check(r > crate::gen::R_MAX, || format!("reforming({r}) = Arithmetic")),
+            }
+            true
+        }
+        "C14" => {
+            let t: i64 = match g.rng.below(5) {
+                0 => (*g.rng.pick(&[-185753453990400i64, 185331720383999, 0, -1, 86400, -86400, i64::MIN, i64::MAX])).saturating_add(g.rng.range(-3, 3)),
+                1 => g.rng.range(i64::MIN, i64::MAX),
+                2 => g.rng.range(-200_000, 200_000) * 86400 + *g.rng.pick(&[-1i64, 0, 1, 86399, 43200]),
+                _ => g.rng.range(-185753453990400 - 1000000, 185331720383999 + 1000000),
+            };
+            let day = i128::from(t).div_euclid(86400) + 2440588;
+            let sec = i128::from(t).rem_euclid(86400);
+            let r = julian::unix2jdn(t);
+            if (i128::from(I32_MIN)..=i128::from(I32_MAX)).contains(&day) {
+                cx.check(r == Ok((day as i32, sec as u32)), || format!("unix2jdn({t}) = {r:?}, expected ({day}, {sec})"));
+            } else {
+                cx.check(r.is_err(), || format!("unix2jdn({t}) = {r:?}, expected an error"));
+            }
+            cx.check(r.is_ok() == (-185753453990400..=185331720383999).contains(&t), || format!("unix2jdn({t}) range"));
+            // system time: floor of the instant
+            let before = g.rng.chance(1, 2);
+            let secs = match g.rng.below(3) {
+                0 => g.rng.below(4),
+                1 => 86400 * g.rng.below(100000) + *g.rng.pick(&[0u64, 1, 86399]),
+                _ => g.rng.below(4_000_000_000),
+            };
+            let nanos = *g.rng.pick(&[0u32, 1, 999, 1000, 999_999, 1_000_000, 500_000_000, 999_999_999]);
+            let d = std::time::Duration::new(secs, nanos);
+            let st = if before { std::time::UNIX_EPOCH.checked_sub(d) } else { std::time::UNIX_EPOCH.checked_add(d) };
+            if let Some(st) = st {
+                let total: i128 = i128::from(secs) * 1_000_000_000 + i128::from(nanos);
+                let inst = if before { -total } else { total };
+                let fl = inst.div_euclid(1_000_000_000);
+                let expect = (fl.div_euclid(86400) + 2440588, fl.rem_euclid(86400));
+                let got = julian::system2jdn(st);
+                cx.check(got == Ok((expect.0 as i32, expect.1 as u32)), || format!("system2jdn(epoch {} {secs}s {nanos}ns) = {got:?}, expected {expect:?}", if before { "-" } else { "+" }));
+                let at = Calendar::GREGORIAN.at_system_time(st);
+                cx.check(at.map(|(dd, s)| (i128::from(dd.julian_day_number()), i128::from(s))) == Ok(expect), || format!("at_system_time epoch{}{secs}s{nanos}ns", if before { "-" } else { "+" }));
+            }
+            let j = g.rng.range(I32_MIN, I32_MAX);
+            cx.check(julian::jdn2unix(j as i32) == (j - 2440588) * 86400, || format!("jdn2unix({j})"));
+            true
+        }
+        _ => false,
+    }
+}
+
 fn one_case(prop: &str, g: &mut Gen, cx: &mut Ctx) {
+    if one_case_global(prop, g, cx) {
+        return;
+    }
     let (ct, oc) = g.cal();
     let Some(cal) = mk(&oc) else {
         cx.check(false, || format!("calendar {ct} could not be built"));
